@@ -23,6 +23,7 @@ import Lomond.Model.ZFrame
 import Lomond.Model.DeflEnc
 import Lomond.Model.CloseSocket
 import Lomond.Model.KeyChain
+import Lomond.Model.Mask
 import Lomond.Generated.Code
 
 namespace Lomond.Driver
@@ -460,6 +461,13 @@ def showDecoded (d : Spec.Decoded) : String :=
 
 def bitAt (s : String) (i : Nat) : Nat := if (s.toList.getD i '0') == '1' then 1 else 0
 
+def showMaskR (r : Mask.R) : String :=
+  let showErr : Mask.Err → String
+    | .valueError => "ValueError" | .indexError => "IndexError" | .nameError => "NameError"
+  match r with
+  | .ok d => "ok " ++ hexOfBytes d
+  | .error (e, d) => "EXC:" ++ showErr e ++ " " ++ hexOfBytes d
+
 def runFrame (args : List String) : String :=
   match args with
   | ["build", op, bits, pl, key] =>
@@ -471,6 +479,12 @@ def runFrame (args : List String) : String :=
     | none => "invalid"
     | some ds => "ok " ++ " ".intercalate (ds.map showDecoded)
   | ["mask", key, data] => hexOfBytes (maskPayload (hexD key) (hexD data))
+  | ["maskmech", key, data] =>
+    -- the mechanics model of mask.py (Model/Mask.lean): result bytes, or the exception and the bytearray's content then
+    showMaskR (Mask.maskPayloadMech (hexD key) (hexD data))
+  | ["lanemech", ts, tst, ss, sst, kb, data] =>
+    -- one statement `data[ts::tst] = data[ss::sst].translate(_XOR_TABLE[kb])` with arbitrary slices (the primitives' semantics)
+    showMaskR (Mask.laneStmt [("r", Mask.xorTable.getD (natOf kb) [])] (natOf ts, natOf tst, natOf ss, natOf sst, "r") (hexD data))
   | ["closepayload", code, reason] =>
     hexOfBytes (buildClosePayload (if code = "N" then none else some (natOf code)) (hexD reason))
   | _ => "bad-op"
